@@ -33,12 +33,18 @@ for f in sorted(os.listdir(os.path.join(VERIF, 'contracts'))):
     for t in parts:
         words.update(re.findall(r'(?<![\w.])[a-z_][a-z0-9_]*\b', t))
     words -= weave.RUST_KW
+    # type names, and names that never occur in a binder position, are not locals: a changed type or callee is not a rename
+    words -= set('i8 i16 i32 i64 i128 isize u8 u16 u32 u64 u128 usize f32 f64 bool char str int nat string vec option result some none ok err'.split())
     lines = text.split('\n')
     decls = []
     for w_ in sorted(words):
         if w_.startswith('__') or len(w_) < 1:
             continue
-        rx = re.compile(r'(?<![\w.])%s\b' % re.escape(w_))
+        w_e = re.escape(w_)
+        binder = re.compile(r'\blet\s+(?:mut\s+)?\(?[^=;]*\b%s\b[^=;]*=|\b(?:mut|ref)\s+%s\b|\b%s\s*:(?!:)|\|[^|]*\b%s\b[^|]*\||\bfor\s+\(?[^{]*\b%s\b[^{]*\bin\b|[(,]\s*%s\s*[),]|\b%s\s*@|=>' % ((w_e,) * 7))
+        if not any(re.search(r'(?<![\w.])%s\b' % w_e, ln) and binder.search(ln) and not re.search(r'\b%s\s*(?:\(|::|!)' % w_e, ln) for ln in lines):
+            continue
+        rx = re.compile(r'(?<![\w.])%s\b(?!\s*(?:\(|::|!))' % w_e)
         for ln in lines:
             st = ln.strip()
             if rx.search(ln) and not st.startswith('//'):
